@@ -26,8 +26,10 @@ META = dict(
                'action of a product = composition); soundness of the checkers isSpaceGroupOp (=> isometry, lattice onto '
                'itself, every atom onto the atom named by indexmap, same species, spins up to one global sign; distances '
                'preserved; crystal mapped ONTO itself) and isGroupModTranslations; the set of ALL symmetry operations of a '
-               'crystal is closed under product/inverse. PARTIAL: completeness of the {-1,0,1} candidate search in '
-               'gengroup is NOT a theorem, so closure of the reported set is established per crystal by running the '
+               'crystal is closed under product/inverse; completeness of the ROTATION candidates of gengroup (box from the inverse metric, '
+               'Cauchy-Schwarz: every unimodular metric-preserving integer matrix is tried — candidateRots_complete). PARTIAL: that '
+               'maptranslation then finds a translation whenever one exists (hence that the reported set is the full group and closed) '
+               'is NOT a theorem, so closure of the reported set is established per crystal by running the '
                'verified checkers on the implementation\'s actual crys.G (zoo + random crystals of every Bravais class), '
                'plus an exact model of gengroup compared as sets modulo lattice translations.',
     level_note='Trusted: Lean kernel + standard axioms; rationalisation of floats (snap with residual < 1e-9); the text '
@@ -37,7 +39,7 @@ META = dict(
                'model: generated structures are exactly symmetric or break symmetry by > 1e-3; a sub-threshold noise stream '
                'is checked by float oracles only.',
     technique='Lean 4 verified checkers + group-law theorems; exact model of gengroup; differential run against crystal.py',
-    lean_modules=['OnsagerModel.C18', 'OnsagerProofs.C18'],
+    lean_modules=['OnsagerModel.C21', 'OnsagerModel.C18', 'OnsagerProofs.C21Geom', 'OnsagerProofs.C18'],
     theorems=['Onsager.C18.GroupOp.mul_assoc', 'Onsager.C18.GroupOp.ident_mul', 'Onsager.C18.GroupOp.mul_ident',
               'Onsager.C18.GroupOp.inv_mul_cancel', 'Onsager.C18.GroupOp.mul_inv_cancel',
               'Onsager.C18.GroupOp.act_mul', 'Onsager.C18.GroupOp.act_ident', 'Onsager.C18.GroupOp.act_inv',
@@ -48,6 +50,7 @@ META = dict(
               'Onsager.C18.IsSymmetry.ident', 'Onsager.C18.all_ops_form_group',
               'Onsager.C18.isGroupModTranslations_sound', 'Onsager.C18.IsGroupModT.translate_closed',
               'Onsager.C18.IsGroupModT.left_inverse', 'Onsager.C18.nosym_is_group',
+              'Onsager.C18.box_complete', 'Onsager.C18.candidateRots_complete', 'Onsager.C18.symmetry_rot_is_candidate',
               'Onsager.C18.C18_partial', 'Onsager.C18.reported_group_ok'],
     tie_theorems=[],
     rule='one case = one crystal construction (zoo of 40 named structures incl. SC/FCC/BCC/HCP/B2/diamond/2-D, then random '
@@ -58,11 +61,11 @@ META = dict(
     trusted=['harness/c18lib.py (generators, snapping, float oracles, native driver build; Crystal.genBZG is stubbed out for speed — it is C22\'s subject and its result is not read by the symmetry code)'],
     assumptions=['scalar spins in {-1,0,1}; complex / vector spins are not modelled',
                  'distinct atoms are > 1e-3 apart and symmetry is broken by > 1e-3 or not at all (threshold regime excluded)',
-                 'noreduce=True on non-reduced cells: float oracles only (known finding: the reported set is then not a group)'],
+                 'noreduce=True skew cells are in the main stream (checkers + exact gengroup model with the complete candidate box)'],
 )
 
 DRV = 'C18'
-MODELS = ['OnsagerModel.Basic', 'OnsagerModel.C18']
+MODELS = ['OnsagerModel.Basic', 'OnsagerModel.C21', 'OnsagerModel.C18']
 
 
 def _replay(xc, flags, extra=None):
@@ -106,6 +109,22 @@ def _make_cases(ctx, n_random, with_zoo=True):
         flags = dict(NOSYM=(rng.random() < 0.12))
         strain = (k % 4 == 0) and not flags['NOSYM']
         cases.append((xc, flags, 'strain' if strain else None))
+    # noreduce=True on deliberately skewed descriptions (the regime of the fixed finding F21)
+    F = Fr
+    sc = X.zoo()[0]
+    skew = [sc.transformed([[1, 0, 1], [0, 1, 0], [0, 0, 1]]),
+            X.XC([[F(1, 4), 0, 0], [0, F(1, 4), F(-1, 4)], [0, F(-1, 4), F(5, 4)]], [[(F(1, 3), F(5, 6), F(1, 2))]],
+                 name='skew-tet(b-c21)', cls='tetP'),
+            X.zoo()[1].transformed([[1, 1, 0], [0, 1, 2], [0, 0, 1]])]
+    skew[0].name = 'SC-skew'; skew[2].name = 'FCC-skew'
+    skew[0].order = skew[2].order = 48; skew[1].order = 16
+    for k in range(max(4, n_random // 6)):
+        xc = X.random_xc(rng, nprng, redescribe=0.0, maxatoms=4)
+        xs = xc.transformed(X.rand_unimodular(rng, xc.d, steps=2, big=2))
+        xs.name = xc.name + '*skew'
+        skew.append(xs)
+    for xs in skew:
+        cases.append((xs, dict(noreduce=True), None))
     return cases, nprng
 
 
@@ -113,7 +132,7 @@ def _run_case(ctx, xc, flags, mode, nprng, lines, pending):
     """build, run float oracles, queue Lean requests.  pending entries: (kind, data...)"""
     rng = ctx.rng
     d = xc.d
-    tag = '%dD:%s%s' % (d, xc.cls, ':NOSYM' if flags.get('NOSYM') else '')
+    tag = '%dD:%s%s%s' % (d, xc.cls, ':NOSYM' if flags.get('NOSYM') else '', ':noreduce' if flags.get('noreduce') else '')
     try:
         crys = X.build(xc, **flags)
     except ArithmeticError as e:
@@ -388,7 +407,6 @@ def run(ctx):
     answers = X.run_driver(ctx, DRV, MODELS, lines)
     _evaluate(ctx, lines, pending, answers)
     _noise_stream(ctx, 12 if ctx.quick else 150, nprng)
-    _noreduce_stream(ctx, 8 if ctx.quick else 120, nprng)
 
 
 def search(ctx, reasons):
